@@ -10,6 +10,8 @@
   Assumed, not proved: `new_v5` (SHA-1) is injective on distinct decimal strings.
 -/
 import PLV.Lemmas.ConcInit
+import PLV.Lemmas.TextRT
+import PLV.Model.Sha1
 
 namespace PLV.C14
 open PLV PLV.Conc
@@ -116,6 +118,64 @@ theorem C14_reproducible (c c' : Cfg) (sched sched' : List Nat) (hg : c.sh.g < W
     (h0 : c.sh.g = c'.sh.g) (hn : (draws c sched).length = (draws c' sched').length) :
     draws c sched = draws c' sched' := by
   rw [C14_draws_consecutive sched c hg, C14_draws_consecutive sched' c' hg', h0, hn]
+
+/-! ### from counters to the ids themselves
+
+`UuidGenerator::next` returns `Uuid::new_v5(namespace, counter.to_string())`. `PLV.Sha1.txId ns c` is that id, computed
+by an executable model of SHA-1 and of the version-5 construction that the correspondence run compares bit for bit with
+the real generator (`v5` lines: namespaces nil / standard / all-ones / random, counters at 0 and at the boundaries).
+What is proved: the name is an injective function of the counter, so two different counters can only give the same id
+through a collision of the (truncated, stamped) SHA-1 — stated with the colliding messages exhibited. -/
+
+open PLV.Sha1 in
+/-- the decimal name determines the counter -/
+theorem C14_name_injective (a b : Nat) (h : nameOfCounter a = nameOfCounter b) : a = b := by
+  unfold nameOfCounter at h
+  have back : ∀ l : List Char, (∀ c ∈ l, c.isDigit = true) →
+      (l.map (fun ch => UInt8.ofNat ch.toNat)).map (fun x => Char.ofNat x.toNat) = l := by
+    intro l hl
+    induction l with
+    | nil => rfl
+    | cons c rest ih =>
+      have hc := hl c (by simp)
+      have hlt : c.toNat < 256 := by
+        simp only [Char.isDigit, Bool.and_eq_true, decide_eq_true_eq] at hc
+        have := hc.2
+        simp only [UInt32.le_iff_toNat_le] at this
+        exact Nat.lt_of_le_of_lt this (by decide)
+      simp only [List.map_cons, List.map_map] at ih ⊢
+      rw [ih (fun c' hc' => hl c' (by simp [hc']))]
+      congr 1
+      simp only [UInt8.toNat_ofNat', Nat.reducePow, Nat.mod_eq_of_lt hlt, Char.ofNat_toNat]
+  have ha := back (Nat.toDigits 10 a) (Text.showNat_digits a)
+  have hb := back (Nat.toDigits 10 b) (Text.showNat_digits b)
+  have e : Nat.toDigits 10 a = Nat.toDigits 10 b := by rw [← ha, ← hb, h]
+  have da := Text.digitsVal_showNat a
+  have db := Text.digitsVal_showNat b
+  simp only [Text.showNat] at da db
+  rw [e] at da
+  exact Option.some.inj (da.symm.trans db)
+
+open PLV.Sha1 in
+/-- **distinct counters give distinct ids, or SHA-1 (truncated to 122 bits as version 5 prescribes) collides**: if
+    two different counter values of one generator produced the same transaction id, the two *different* messages
+    `namespace ++ decimal(a)` and `namespace ++ decimal(b)` would have the same stamped digest -/
+theorem C14_distinct_or_collision (ns a b : Nat) (hab : a ≠ b) (h : txId ns a = txId ns b) :
+    ∃ m1 m2 : List UInt8, m1 ≠ m2 ∧ ofBytes (stamp (digestBytes m1)) = ofBytes (stamp (digestBytes m2)) :=
+  ⟨bytes16 ns ++ nameOfCounter a, bytes16 ns ++ nameOfCounter b,
+   fun e => hab (C14_name_injective a b (List.append_cancel_left e)), h⟩
+
+/-- reproducibility, at the level of ids: the ids handed out are `txId namespace` of the values drawn, and those
+    depend only on the starting counter and the number of draws (`C14_reproducible`) -/
+theorem C14_ids_reproducible (ns : Nat) (c c' : Cfg) (sched sched' : List Nat) (hg : c.sh.g < W) (hg' : c'.sh.g < W)
+    (h0 : c.sh.g = c'.sh.g) (hn : (draws c sched).length = (draws c' sched').length) :
+    (draws c sched).map (PLV.Sha1.txId ns) = (draws c' sched').map (PLV.Sha1.txId ns) := by
+  rw [C14_reproducible c c' sched sched' hg hg' h0 hn]
+
+/-! non-vacuity: names are the ASCII decimal digits (the id values themselves - e.g. `txId 0 0 =
+    242943767789622401472770188650165148846` - are evaluated by the compiled driver and compared with the crate on every run;
+    kernel evaluation of SHA-1 exceeds the recursion limit) -/
+example : PLV.Sha1.nameOfCounter 42 = [52, 50] := by decide
 
 /-! non-vacuity: two threads drawing concurrently -/
 example : draws (Cfg.init (Level.new 100) 5 [[.next, .next], [.next]]) [0, 1, 0] = [5, 6, 7] := by decide
